@@ -1,6 +1,7 @@
 package props
 
 import (
+	"regexp"
 	"path/filepath"
 	"os/exec"
 	"os"
@@ -197,6 +198,29 @@ func c17Calls(r *rand.Rand) []c17Call {
 			}
 			return digestDoc(reader.New().ParseStream(strings.NewReader(doc)))
 		}})
+	}
+	// SPDX documents without a namespace: the reader generates their identifier; overlapping parses must neither
+	// disturb each other nor hand two documents the same generated identifier
+	{
+		in := gen.RepDocs[0].JSON
+		for _, d := range gen.RepDocs {
+			if strings.Contains(d.JSON, "documentNamespace") {
+				in = d.JSON
+			}
+		}
+		noNS := regexp.MustCompile(`\s*"documentNamespace"\s*:\s*"[^"]*"\s*,`).ReplaceAllString(in, "")
+		if noNS != in {
+			var ids sync.Map
+			calls = append(calls, c17Call{"parse-spdx-without-namespace", func() string {
+				d, err := reader.New().ParseStream(strings.NewReader(noNS))
+				if err == nil && d != nil && d.Metadata != nil && d.Metadata.Id != "" {
+					if _, dup := ids.LoadOrStore(d.Metadata.Id, true); dup {
+						return "DUPLICATE-GENERATED-ID " + d.Metadata.Id
+					}
+				}
+				return digestDoc(d, err)
+			}})
+		}
 	}
 	calls = append(calls, c17Call{"parse-with-reader-options", func() string {
 		rd := reader.New(reader.WithFormatOptions("k", 1), reader.WithUnserializeOptions(&native.UnserializeOptions{}))
